@@ -17,13 +17,19 @@ META = {
     'rule_text': 'rule instances: notation typing of every conversion function and every conversion method (name states the type, body must '
                  'produce it through correctly typed steps); completeness of the 9 x 8 conversion table; defining linear forms of the '
                  'sexagesimal notations; sign symmetry of every positive/negative branch pair; sign inference of the DMS/DDM constructors over '
-                 'the finite set of sign patterns; agreement of all HP-notation validators (digit positions, comparison, formatting '
-                 'precision); carry cascade of the decimal-to-HP conversion',
+                 'the finite set of sign patterns; carry cascade of the decimal-to-HP conversion; R-DIGITS: the string-based conversions as '
+                 'positional decimal arithmetic - which decimals of the rendering become minutes / seconds in hp2dec, hp2dms, hp2ddm, how dec2hp '
+                 'joins its zero-filled fields - per magnitude regime the code distinguishes; the validators of hp2dec and HPAngle decided over '
+                 'the whole digit domain (reject iff MM >= 60 or SS >= 60); the number of decimals rendered against the spacing of doubles of '
+                 'that magnitude (R-FORMAT); the sibling rule that every HP reader cuts the decimal rendering or rounds before a floor/divmod',
     'explanation': 'Static: a small notation type system over the conversion functions and methods, abstract evaluation of the linear forms and '
-                   'branch pairs, constant-folding over the finite set of sign patterns, and cross-checking of sibling validators / one-sided carry '
-                   'handling (contradiction rules). Decides the structural necessary conditions of C08. Facts about IEEE doubles (the 1e-8 '
-                   'arc-second figure, the whole-second lattice, values 1e-9" from a digit boundary, float divmod in hp2dms/hp2ddm) are not '
-                   'facts about the shape of the code and are not decided.',
+                   'branch pairs, constant-folding over the finite set of sign patterns, a contradiction rule for the one-sided carry, and an '
+                   'abstract domain of decimal strings (sv/digits.py: formatted numbers as digit tokens; split, slices, rstrip, replace, joins; '
+                   'float()/int() give exact positional values) evaluated once per magnitude regime. Decides the structural necessary '
+                   'conditions of C08, including two that are about IEEE doubles but visible in the code: a fixed ".13f" rendering is too '
+                   'long for doubles of 512 and more (2^-43 apart), and HP -> angle is discontinuous at every field boundary, so a floor of an '
+                   'unrounded binary-float multiple of an HP number is unsound - the module says so itself where it parses strings. The 1e-8 '
+                   'arc-second figure as such, the whole-second lattice and the accumulated rounding of chains are not decided.',
 }
 
 FLOATS = ['rad', 'dec', 'hp', 'gon']
